@@ -95,7 +95,7 @@ def _replaced(u):
 
 
 def _u(func, props, doc, file="blake3.c", replace=(), inlined=(), loops=(), unwind=1, bounded=(),
-       tier="quick", config="portable", rec=False, defs=(), timeout=300, mem_gb=16, harness=None,
+       tier="quick", config="portable", rec=False, defs=(), timeout=900, mem_gb=16, harness=None,
        extra_trust=(), level="proof", extra_cbmc=(), enforce=True, pre_unwind=(), solver=None):
     return dict(func=func, props=list(props), doc=doc, file=file, replace=list(replace),
                 inlined=list(inlined), loops=list(loops), unwind=unwind, bounded=list(bounded),
